@@ -5,10 +5,12 @@
    Style rows) after the repair); (2) the SubRip writer model is a function of the cue list alone (no map,
    no clock): determinism is immediate; (3) Merge's definition maps do not depend on the iteration order
    (C12_merge_order_independent).  Purity ("no writer modifies the list") and the byte-level determinism of the
-   WebVTT/SSA/TTML/STL writers are established by the harness (50 repetitions x 5 processes x 6 writer
+   TTML/STL writers are established by the harness; the SSA/ASS writer model takes the iteration order of the
+   styles map as a parameter and its bytes are proved independent of it (C19_ssa_deterministic) (50 repetitions x 5 processes x 6 writer
    orders, deep snapshots): that half is correspondence, not proof. *)
 From Coq Require Import List NArith Permutation.
 From Astisub Require Import Kit.Base Kit.GoMap Model.Srt Model.Vtt Proofs.VttIOProofs.
+From Astisub Require Import Model.Ssa Proofs.SsaOrder.
 Import ListNotations.
 
 Theorem C19_sorted_range_independent : forall (V A : Type) (m : list (N * V)) (order order' : list N)
@@ -26,6 +28,10 @@ Proof. intros l l' H. rewrite H. reflexivity. Qed.
 Theorem C19_vtt_deterministic : forall d so so' ro ro',
   Permutation so so' -> Permutation ro ro' -> write_vtt d so ro = write_vtt d so' ro'.
 Proof. exact write_vtt_order_independent. Qed.
+(* the SSA/ASS writer model takes the iteration order of the styles map as a parameter: its bytes (script info, Format
+   line, Style rows, events) do not depend on it *)
+Theorem C19_ssa_deterministic : forall d order order', Permutation order order' -> write_ssa d order = write_ssa d order'.
+Proof. exact write_order_independent. Qed.
 
 Example C19_example : nsort [3; 1; 2]%N = nsort [2; 3; 1]%N. Proof. reflexivity. Qed.
 
@@ -33,3 +39,4 @@ Print Assumptions C19_sorted_range_independent.
 Print Assumptions C19_sort_forgets_order.
 Print Assumptions C19_srt_deterministic.
 Print Assumptions C19_vtt_deterministic.
+Print Assumptions C19_ssa_deterministic.
